@@ -62,7 +62,8 @@ fn decode_inner(buf: &mut BytesMut) -> Result<Option<(RequestId, (Tag, Vec<Contr
     buf.advance(buf.len() - i.len());
     let tag = tag.clone();
     let mut tags = match tag
-        .match_id(Types::Sequence as u64)
+        .match_class(TagClass::Universal)
+        .and_then(|t| t.match_id(Types::Sequence as u64))
         .and_then(|t| t.expect_constructed())
     {
         Some(tags) => tags,
@@ -125,6 +126,10 @@ fn decode_inner(buf: &mut BytesMut) -> Result<Option<(RequestId, (Tag, Vec<Contr
         },
         None => return Err(decoding_error),
     };
+    if !tags.is_empty() {
+        // nothing precedes the message ID in an LDAPMessage
+        return Err(decoding_error);
+    }
     Ok(Some((msgid, (Tag::StructureTag(protoop), controls))))
 }
 
